@@ -183,3 +183,15 @@ Proof. exact AgentMeets2.model_C08_d6_reachable. Qed.
 Theorem C08_known_finding_D7_on_model : exists cf m mc cc ops vs, consistent mc cf /\ consistent_cc cc cf m /\ well_formed_history ops /\ wf_apps ops
   /\ In vs (run_mon mc cc (init cf m) (mall0 cc) ops) /\ In (8, false, 2) vs.
 Proof. exact AgentMeets2.model_C08_d7_reachable. Qed.
+
+(* ---- the integrity attribute of every long-term request is of the kind the latest accepted challenge calls for (SHA-256 if
+   algorithms were offered, otherwise SHA-1) and keyed for its realm / negotiated algorithm: the monitor mon_C13_ltkey, whose
+   failures the driver reports under C08 as well (class lt-integrity-key; the 9.2.4 verdict of mon_C08 stops at the missing
+   algorithm attributes of the known finding D7 before it looks at the integrity kind). The model satisfies it on every
+   well-formed history *)
+From Rustun Require Import Proofs.AgentMeets3.
+Theorem C08_model_meets_integrity_kind_monitor : forall (cf:config) (m:mech) (mc:mcfg) (cc:ccfg) (ops:list op),
+  consistent mc cf -> consistent_cc cc cf m -> well_formed_history ops -> wf_apps ops ->
+  forall x, In x (run_mon_lt mc cc (init cf m) (mall0 cc) ops) -> lv_key x = true.
+Proof. exact AgentMeets3.model_meets_C13_ltkey. Qed.
+Print Assumptions C08_model_meets_integrity_kind_monitor.
